@@ -159,6 +159,9 @@ struct Run
     vos::quiet(true);
     f();
     drain();
+    std::string have = "have";
+    for(int fd : vos::open_fds()) have += " " + vos::label(fd);
+    say(have);
   }
 
   // one faultable API call; returns true if it returned normally
@@ -204,10 +207,11 @@ struct Run
 
 Run *g = nullptr;
 
+// reports a future once, when it has become ready ("" = nothing new)
 std::string futState(std::future<void> &f)
 {
-  if(!f.valid()) return "invalid";
-  if(f.wait_for(std::chrono::seconds(0)) != std::future_status::ready) return "pending";
+  if(!f.valid()) return "";
+  if(f.wait_for(std::chrono::seconds(0)) != std::future_status::ready) return "";
   try {
     f.get();
     return "value";
@@ -512,9 +516,15 @@ std::map<std::string, Scen> const &scenarios()
          f1 = s->Send(std::move(b1));
          f2 = s->Send(std::move(b2));
        });
-       r.step("drive", [&] { d->Step(Duration(0)); }, [&] { g->events.push_back("future " + futState(f1)); });
-       r.step("drive", [&] { d->Step(Duration(0)); }, [&] { g->events.push_back("future " + futState(f2)); });
-       r.step("drive", [&] { d->Step(Duration(0)); });
+       auto futs = [&] {
+         for(auto *f : {&f1, &f2}) {
+           auto st = futState(*f);
+           if(!st.empty()) g->events.push_back("future " + st);
+         }
+       };
+       r.step("drive", [&] { d->Step(Duration(0)); }, futs);
+       r.step("drive", [&] { d->Step(Duration(0)); }, futs);
+       r.step("drive", [&] { d->Step(Duration(0)); }, futs);
        r.teardown([&] { s.reset(); d.reset(); });
      }},
     {"udp_async_recv", [](Run &r) {
@@ -550,9 +560,15 @@ std::map<std::string, Scen> const &scenarios()
          f1 = s->SendTo(std::move(b1), dst);
          f2 = s->SendTo(std::move(b2), dst);
        });
-       r.step("drive", [&] { d->Step(Duration(0)); }, [&] { g->events.push_back("future " + futState(f1)); });
-       r.step("drive", [&] { d->Step(Duration(0)); }, [&] { g->events.push_back("future " + futState(f2)); });
-       r.step("drive", [&] { d->Step(Duration(0)); });
+       auto futs = [&] {
+         for(auto *f : {&f1, &f2}) {
+           auto st = futState(*f);
+           if(!st.empty()) g->events.push_back("future " + st);
+         }
+       };
+       r.step("drive", [&] { d->Step(Duration(0)); }, futs);
+       r.step("drive", [&] { d->Step(Duration(0)); }, futs);
+       r.step("drive", [&] { d->Step(Duration(0)); }, futs);
        r.teardown([&] { s.reset(); d.reset(); raw::close(peer); });
      }},
     {"acceptor_async_accept", [](Run &r) {
@@ -599,6 +615,7 @@ void child(std::vector<std::string> const &w)
     vos::reset();
     vos::monotone_ordinals(true);
     vos::ledger_strict(true);
+    vos::clobber_errno(true);
     vos::log_enable(true);
     vos::quiet(true);
   };
